@@ -22,6 +22,7 @@ THEOREMS = [
     'OpenHTF.Logs.c19_rejects_other_runs_loggers',
     'OpenHTF.Logs.c19_framework_messages_kept',
     'OpenHTF.Logs.c19_exactly_once',
+    'OpenHTF.Logs.c19_emission_order',
     'OpenHTF.Logs.c19_finished_record_immutable',
     'OpenHTF.Logs.c19_no_handler_after_finish',
     'OpenHTF.Logs.c19_handlers_do_not_accumulate',
